@@ -108,6 +108,18 @@ CHECKS = {
             "must load, declared atoms (values, units, descriptions, membership) equal, monitored values / Euler / generalized RL numerically "
             "equal by name, for 37 constructs sympy normalises, random annotated models and the shipped CellML models.",
             "Gallina model of the writer's block structure + round-trip differential execution"),
+    "C15": ("Theorems (partial: the converter's substitution passes as identifier renamings - a renaming that maps every reference to the "
+            "referent's unique name preserves the meaning under the transported environment; passes compose; a pass that matches nothing "
+            "changes nothing) + correspondence: no converted expression refers to a name the converted model does not define; direct: shipped "
+            ".mmt / .cellml files and generated Myokit models (nested variables with equal local names, names clashing with sympy names incl. pi, "
+            "equal local state names in two components, if(), all operators): states / initial values / constants under unique names, generated rhs "
+            "after the documented save-and-reload step vs Model.evaluate_derivatives at 3 states, and the conversion back to Myokit.",
+            "Gallina renaming model (partial) + differential execution against Myokit's evaluator"),
+    "C18": ("Theorems (thin model: the effective options are the command-line options overridden by the keys present in the configuration, "
+            "falsy values included; options without a configuration key pass through) + direct: python -m gotranx ode2py / ode2c / convert / "
+            "cellml2ode in scratch directories over option and configuration combinations: exit status, exactly which files appear, bytes vs "
+            "the API for the effective options; invalid / missing models exit non-zero without writing.",
+            "thin Gallina option-merge model + subprocess differential execution against the API"),
 }
 
 def main():
